@@ -1116,11 +1116,18 @@ Definition wdt_ok (acc : list bytes) (d : wdt) : bool :=
   | [] => true
   | _ => match d with WLit x => dt_in acc x | WSize => dt_in acc dI8 | WParam => true end
   end.
+(* a writer row whose label is chosen at run time among alternatives lists them separated by '|' *)
+Fixpoint split_bar (x cur : bytes) : list bytes :=
+  match x with
+  | [] => [cur]
+  | c :: r => if c =? 124 then cur :: split_bar r [] else split_bar r (cur ++ [c])
+  end.
 Definition reader_takes (rs : list rrow) (parent label : bytes) (d : wdt) : bool :=
-  existsb (fun r => match r with
-                    | RRow _ p l acc => bytes_eqb p parent && bytes_eqb l label && wdt_ok acc d
-                    | RUnparsed _ _ => false
-                    end) rs.
+  existsb (fun lab =>
+    existsb (fun r => match r with
+                      | RRow _ p l acc => bytes_eqb p parent && bytes_eqb l lab && wdt_ok acc d
+                      | RUnparsed _ _ => false
+                      end) rs) (split_bar label []).
 (* (parent label, child label) pairs a writer emits on purpose although no reader of the mid-level library collects
    them: none at present *)
 Definition write_only : list (bytes * bytes) := [].
@@ -1140,7 +1147,7 @@ Definition open_wrows (ws : list wrow) (rs : list rrow) : list wrow := filter (f
 Definition writer_emits (ws : list wrow) (parent label : bytes) (dts : list bytes) : bool :=
   existsb (fun w => match w with
                     | WRow _ p _ l d _ =>
-                        bytes_eqb p parent && bytes_eqb l label &&
+                        bytes_eqb p parent && existsb (bytes_eqb label) (split_bar l []) &&
                         match d with WLit x => dt_in dts x | WSize => dt_in dts dI8 | WParam => true end
                     | WUnparsed _ _ => false
                     end) ws.
